@@ -312,22 +312,23 @@ def theorem_instances(ctx):
 
 
 def check_gather(ctx, n):
-    """C14.Gather.joined_fixed against get_code_line (fixed branch) + the join of the parse loop"""
+    """C14.Gather.joined_fixed against get_code_line (fixed branch) + the join of the parse loop; lines without character literals"""
     from fortls.parsers.internal.parser import FortranFile
     coq = ctx.coq("From FV Require Import Base.Str C14.Gather.")
     r = ctx.rng
     stmts = ["integer alpha, beta, gam", "call ext_sub(x, y, z + 1)", "x = y * (z + 1) - arr(2)", "real v_one(3), v_two", "print *, x, y, z"]
-    fillers = ["", "   ", "C a comment", "c     & looks like one", "* star", "! bang", "d debug", "\t"]
+    fillers = ["", "   ", "C a comment", "c     & looks like one", "* star", "! bang", "d debug", "\t", "   ! indented comment", "      ! comment in column 7", " !x"]
+    tails = ["", "", " ! note", "! a & b", "  !", " ! trailing ! twice"]
     stops = [[], ["      end"], ["10    continue"], ["      x = 2", "     & + 3"], ["#ifdef X"]]
     exprs, meta = [], []
     for _ in range(n):
         stmt = r.choice(stmts)
         cuts = sorted(r.sample(range(1, len(stmt)), r.choice([0, 1, 2, 3])))
         bodies = [stmt[a:b] for a, b in zip([0] + cuts, cuts + [len(stmt)])]
-        lines = [" " * r.choice([6, 7, 9]) + bodies[0]]
+        lines = [" " * r.choice([6, 7, 9]) + bodies[0] + r.choice(tails)]
         for b in bodies[1:]:
             lines += [r.choice(fillers) for _ in range(r.choice([0, 0, 1, 2]))]
-            lines.append("     " + r.choice("&1+$.!*x") + b)
+            lines.append("     " + r.choice("&1+$.!*x") + b + r.choice(tails))
         lines += [r.choice(fillers) for _ in range(r.choice([0, 1]))]
         lines += r.choice(stops)
         f = FortranFile("/nonexistent/gather.f")
@@ -336,7 +337,8 @@ def check_gather(ctx, n):
         _, cur, post = f.get_code_line(0, backward=False)
         got = "".join([cur] + post)
         ctx.count(("gather", tuple(lines)), len(bodies) > 1)
-        if got.replace(" ", "") != stmt.replace(" ", ""):
+        # what the statement readers see: the joined line up to its first `!` (the trailing comment of the last line)
+        if got.split("!")[0].replace(" ", "") != stmt.replace(" ", ""):
             ctx.report("C14:continuation", "a fixed-form statement split over continuation lines is not reassembled",
                        {"kind": "counterexample", "input": {"lines": lines, "statement": stmt}, "implementation": got})
         exprs.append("str_eqb (joined_fixed %s %s) %s" % (cstr(lines[0]), clist(lines[1:], cstr), cstr(got)))
